@@ -32,7 +32,9 @@ CLAIMED["C01"] = dict(
           "default, else the call fails) for every valid signature and every store satisfying the storage "
           "invariant; evaluated in Coq against fdl.build on recording callables (6 callable flavours, "
           "constructor + later edits, all small signature shapes x all subsets of set parameters)."),
-    note=COMMON_NOTE + " inspect.signature is trusted (the model receives the implementation's signature).",
+    note=COMMON_NOTE + " inspect.signature is trusted (the model receives the implementation's signature). Known "
+         "finding: a default_factory parameter of a @supply_defaults function left unset before a configured *args "
+         "value receives the factory sentinel (directed oracle case).",
     technique="Coq proof (binding = reference view) + vm_compute correspondence on recording callables",
     design="3/C01")
 
@@ -193,7 +195,10 @@ CLAIMED["C20"] = dict(
           "totality and serializability."),
     note=COMMON_NOTE + " Oracle conventions: built functools.partial compared modulo callee defaults, "
          "partial(f) identified with f, numerically equal leaves identified (Python ==), tuple-of-literals "
-         "identity not observed. inline / dataclass conversion / unintern are decided by the oracle only.",
+         "identity not observed. inline / dataclass conversion / unintern are decided by the oracle only, as are the "
+         "directed cases for @supply_defaults callables, Partials with an unset required positional-only parameter and "
+         "TaggedValues holding Buildables (repaired defects 785b68a, abfa624). Known finding: trimming an argument equal to "
+         "a mutable default changes sharing.",
     technique="Coq proof (view preservation of materialize/trim; traversal instances) + heap correspondence + build oracle",
     design="3/C20")
 
